@@ -27,7 +27,7 @@ else:
 res = {}
 try:
     for c in checks:
-        env = dict(os.environ, VERIF_SEED=seed)
+        env = dict(os.environ, VERIF_SEED=seed, VERIF_NO_EVIDENCE="1")     # evidence/ is only written on the unchanged tree
         if wt:
             env["PYTHONPATH"] = os.path.join(wt, "src")
             env["VERIF_REPO"] = wt
@@ -48,5 +48,4 @@ finally:
         subprocess.run(["git", "-C", "/repo", "checkout", "--", "."], check=True)
     else:
         subprocess.run(["git", "-C", "/repo", "worktree", "remove", "--force", wt], check=False)
-    # evidence files were rewritten against the mutated tree: the caller re-runs the checks on the clean tree
 print(json.dumps(res))
